@@ -134,6 +134,8 @@ func (c *Ctx) analyseBuf(rule string, fn *ssa.Function, pi int, regionIn region,
 					}
 					switch {
 					case name == "bytes.NewBuffer" || name == "(*bytes.Buffer).Bytes" || appendOnly[name] || readOnly[name]:
+					case name == "(*bytes.Buffer).Len" || name == "(*bytes.Buffer).Cap" || name == "(*bytes.Buffer).Grow" || name == "(*bytes.Buffer).Available":
+						// neither writes nor exposes the caller's bytes (what Len() may be used for is C16.indep's business)
 					case inRepo(callee):
 						w, _ := c.analyseBuf(rule, origin(callee), ai, r, depth+1)
 						if w && r == rPrefix {
